@@ -39,6 +39,10 @@ def families():
     src_s = ("import dataclasses, typing\n@dataclasses.dataclass\nclass Account:\n    id: int\n    name: str\n"
              "@dataclasses.dataclass\nclass AdminAccount(Account):\n    level: int = 0\n"
              "@dataclasses.dataclass\nclass Holder:\n    owner: 'typing.Union[Account, str]'\n"
+             "@dataclasses.dataclass(frozen=True)\nclass Snapshot:\n    id: int\n    tags: 'list[str]' = dataclasses.field(default_factory=list)\n"
+             "SNAP1 = Snapshot(1, ['a'])\nSNAP2 = Snapshot(2, ['x'])\n"
+             "def snap1():\n    SNAP1.tags[:] = ['a']\n    return SNAP1\n"
+             "def snap2():\n    SNAP2.tags[:] = ['x']\n    return SNAP2\n"
              "@dataclasses.dataclass\nclass Comment:\n    id: int\n    replies: 'list[Comment]' = dataclasses.field(default_factory=list)\n"
              "@dataclasses.dataclass\nclass Chain:\n    n: int\n    nxt: 'typing.Optional[Chain]' = None\n"
              # the caller keeps one payload and repairs it in place: the nested objects keep their identity
@@ -149,6 +153,11 @@ def families():
         "subclass_after_base": {(1, 1): ma(SM.Account, lambda: SM.Account(2, "bob")), (1, 2): ma(SM.AdminAccount, lambda: SM.AdminAccount(1, "ann", 2)),
                                 (2, 1): (lambda x: list(serdes.iteritems(x)), lambda: SM.Account(3, "cy")),
                                 (2, 2): (lambda x: list(serdes.iteritems(x)), lambda: SM.AdminAccount(4, "di", 5))},
+        # an input that already is an instance of the (frozen) target class: the result must not be the caller's object
+        # (the caller keeps the instance and passes the very same object again)
+        "frozen_instance_input": {(1, 1): um(SM.Snapshot, lambda: SM.snap1()), (1, 2): um(SM.Snapshot, lambda: SM.Snapshot(1, ["a", "b"])),
+                                  (2, 1): um(list[SM.Snapshot], lambda: [SM.snap2()]),
+                                  (2, 2): um(dict[str, SM.Snapshot], lambda: {"k": SM.snap2()})},
         "dateparse": {(1, 1): um(datetime.datetime, lambda: "2020-01-01"), (1, 2): um(datetime.date, lambda: "2020-01-01"),
                       (2, 1): um(datetime.timedelta, lambda: "PT1S"), (2, 2): um(datetime.timedelta, lambda: 1)},
     }
@@ -205,16 +214,26 @@ def run_history(fam, ops):
         if op["op"] == "call":
             out, r, x, intact = run_call(fam, op["eq"], op["d"])
             earlier_ok = all(m or json.dumps(project(o), sort_keys=True) == snap for (_, o, snap, m, _x) in results)
+            # a mutable container of this result that also sits in an earlier call's result (where neither got it from its input:
+            # pass-through positions hand the caller's own objects back by design)
+            from harness.drivers.c06 import mutable_ids
+            mine = mutable_ids(r) - mutable_ids(x) if r is not None else set()
+            disjoint = not any(mine & (mutable_ids(o) - mutable_ids(xo)) for (_, o, _s, _m, xo) in results if o is not None)
             results.append([i, r, json.dumps(project(r), sort_keys=True), False, x])
-            recs.append({"op": "call", "eq": op["eq"], "d": op["d"], "warm": out, "input_intact": intact, "earlier_intact": earlier_ok})
+            recs.append({"op": "call", "eq": op["eq"], "d": op["d"], "warm": out, "input_intact": intact, "earlier_intact": earlier_ok,
+                         "results_disjoint": disjoint})
         elif op["op"] == "mutate":
             tgt = [r for r in results if r[0] == op["target"] - 1]
             did = False
+            indep = True
             if tgt:
+                # first the input that was passed to that call: the result it returned must not move with it ...
+                deep_mutate(tgt[0][4])
+                indep = tgt[0][3] or tgt[0][1] is None or json.dumps(project(tgt[0][1]), sort_keys=True) == tgt[0][2]
+                # ... then the result itself
                 did = deep_mutate(tgt[0][1])
-                deep_mutate(tgt[0][4])          # also the input that was passed to that call
                 tgt[0][3] = True
-            recs.append({"op": "mutate", "did": did})
+            recs.append({"op": "mutate", "did": did, "result_independent_of_input": indep})
         elif op["op"] == "clear":
             clear_typelib_caches()
             recs.append({"op": "clear"})
@@ -293,4 +312,4 @@ class Zygote:
 FAMILY_NAMES = ["union_unmarshal", "union_marshal", "union_in_list", "instants", "instants_in_list", "text_carriers",
                 "bare_containers", "numbers", "same_name_classes", "string_refs", "recursive", "codec_configs", "dateparse",
                 "build_order", "build_order_nt", "same_routine_inputs", "same_routine_inputs2", "private_fields", "nested_text",
-                "nested_text2", "duration_classes", "temporal_text_targets", "equal_keys", "same_origin_kinds", "same_origin_kinds2", "value_classes", "retry_same_object", "subclass_after_base"]
+                "nested_text2", "duration_classes", "temporal_text_targets", "equal_keys", "same_origin_kinds", "same_origin_kinds2", "value_classes", "retry_same_object", "subclass_after_base", "frozen_instance_input"]
